@@ -152,4 +152,194 @@ def lookup (pts : List (Rat × Rat)) (x : Rat) : Rat :=
     else if x ≥ lastX pts then lastY pts
     else interp pts x
 
+/-! ### Wave 3: the solution of an acyclic model — evaluation with a PARTIAL valuation, and the cache-free
+recursive evaluator (`Model.memoize` without the memo) -/
+
+/-- an ordinary call, when the callee evaluated -/
+def callO (C : TC α) (f : Option α) (vs : List α) : Option α :=
+  match f with
+  | some fv => some (C.call fv vs)
+  | none => none
+
+mutual
+/-- `evalM` over a partial valuation `Wp`: the same evaluation, failing (`none`) as soon as a
+`model.memoize(x, τ)` asks for a value `Wp` does not provide — the instrumented notion of "consults" -/
+def evalO (C : TC α) (Wp : String → Nat → Option α) (ρ : Nat → α) (k : Nat) : Py → Option α
+  | .num s => some (C.num s)
+  | .name s => some (if s = "t" then C.time k else C.name s)
+  | .str s => some (C.str s)
+  | .hole i => some (ρ i)
+  | .paren e => evalO C Wp ρ k e
+  | .neg e => match evalO C Wp ρ k e with
+    | some a => some (C.neg a)
+    | none => none
+  | .not e => match evalO C Wp ρ k e with
+    | some a => some (C.not a)
+    | none => none
+  | .bin op l r =>
+    match evalO C Wp ρ k l, evalO C Wp ρ k r with
+    | some a, some b => some (C.bin op a b)
+    | _, _ => none
+  | .ite x c y =>
+    match evalO C Wp ρ k c with
+    | some cv => if C.truthy cv then evalO C Wp ρ k x else evalO C Wp ρ k y
+    | none => none
+  | .attr e a =>
+    if isModel e then some (modelAttr C a) else
+    match evalO C Wp ρ k e with
+    | some v => some (C.attr v a)
+    | none => none
+  | .call f args =>
+    match evalOL C Wp ρ k args with
+    | none => none
+    | some vs =>
+      if isMemoize f then
+        match strArg args, vs with
+        | some n, [_, tv] =>
+          match C.idx tv with
+          | some j => Wp n j
+          | none => some (C.call (C.name "memoize-off-grid") vs)
+        | _, _ => callO C (evalO C Wp ρ k f) vs
+      else callO C (evalO C Wp ρ k f) vs
+  | .index e i =>
+    match evalO C Wp ρ k e, evalO C Wp ρ k i with
+    | some a, some b => some (C.index a b)
+    | _, _ => none
+  | .list es => match evalOL C Wp ρ k es with
+    | some vs => some (C.list vs)
+    | none => none
+  | .kw n e => match evalO C Wp ρ k e with
+    | some a => some (C.kw n a)
+    | none => none
+def evalOL (C : TC α) (Wp : String → Nat → Option α) (ρ : Nat → α) (k : Nat) : List Py → Option (List α)
+  | [] => some []
+  | e :: es =>
+    match evalO C Wp ρ k e, evalOL C Wp ρ k es with
+    | some v, some vs => some (v :: vs)
+    | _, _ => none
+end
+
+/-- body of element `n` in a model given as a list of (name, function-string body) -/
+def bodyOf (els : List (String × Py)) (n : String) : Option Py := els.lookup n
+
+/-- what `Model.memoize` computes without its cache: a `model.memoize(x, τ)` inside a body is evaluated by
+evaluating the body of `x` at the index of `τ`, recursively (`fuel` bounds the recursion depth; `none`:
+unknown element or fuel exhausted — the Python recursion would not have ended within that depth) -/
+def solveF (C : TC α) (els : List (String × Py)) (ρ : Nat → α) : Nat → String → Nat → Option α
+  | 0, _, _ => none
+  | fuel + 1, n, k =>
+    match bodyOf els n with
+    | none => none
+    | some body => evalO C (solveF C els ρ fuel) ρ k body
+
+/-- the values a body may consult when it is evaluated for element `n` at index `k` in an acyclic model with
+rank function `rk`: elements of the model at an earlier index, or at the same index with a smaller rank -/
+def allowed (els : List (String × Py)) (rk : String → Nat) (n : String) (k : Nat) (m : String) (j : Nat) : Bool :=
+  (bodyOf els m).isSome && (decide (j < k) || (decide (j = k) && decide (rk m < rk n)))
+
+/-- a total valuation cut down to the allowed set -/
+def restrictW (els : List (String × Py)) (rk : String → Nat) (W : String → Nat → α) (n : String) (k : Nat) :
+    String → Nat → Option α :=
+  fun m j => if allowed els rk n k m j then some (W m j) else none
+
+
+/-! ### Wave 3: a decidable syntactic criterion for acyclicity (checked on the real function strings by the driver) -/
+
+def isT : Py → Bool
+  | .name s => s == "t"
+  | _ => false
+
+def isTMinusDt : Py → Bool
+  | .bin .sub (.name a) (.attr (.name b) c) => a == "t" && b == "model" && c == "dt"
+  | _ => false
+
+mutual
+/-- every `model.memoize` call in the text is `model.memoize('m', t)` with `now m`, or
+`model.memoize('m', t - model.dt)` with `prev m` -/
+def refsIn (now prev : String → Bool) : Py → Bool
+  | .paren e => refsIn now prev e
+  | .neg e => refsIn now prev e
+  | .not e => refsIn now prev e
+  | .kw _ e => refsIn now prev e
+  | .bin _ l r => refsIn now prev l && refsIn now prev r
+  | .index l r => refsIn now prev l && refsIn now prev r
+  | .ite x c y => refsIn now prev x && refsIn now prev c && refsIn now prev y
+  | .attr e _ => refsIn now prev e
+  | .call f args =>
+    if isMemoize f then
+      match args with
+      | [.str m, τ] => (isT τ && now m) || (isTMinusDt τ && prev m)
+      | _ => false
+    else refsIn now prev f && refsInL now prev args
+  | .list es => refsInL now prev es
+  | _ => true
+def refsInL (now prev : String → Bool) : List Py → Bool
+  | [] => true
+  | e :: es => refsIn now prev e && refsInL now prev es
+end
+
+def inModel (els : List (String × Py)) (m : String) : Bool := (bodyOf els m).isSome
+
+def lowerNow (els : List (String × Py)) (rk : String → Nat) (n m : String) : Bool :=
+  (bodyOf els m).isSome && decide (rk m < rk n)
+
+/-- `(init, eq)` when the text is the stock skeleton of `n` around them -/
+def stockParts (n : String) : Py → Option (Py × Py)
+  | .ite init (.bin .le (.name a) (.attr (.name b) c))
+      (.bin .add (.call (.attr (.name fm) fa) [.str m, .bin .sub (.name ta) (.attr (.name tb) tc)])
+        (.bin .mul (.attr (.name d) e) eq)) =>
+    if a == "t" && b == "model" && c == "starttime" && fm == "model" && fa == "memoize" && m == n &&
+        ta == "t" && tb == "model" && tc == "dt" && d == "model" && e == "dt" then some (init, eq) else none
+  | _ => none
+
+/-- element `n` is syntactically well-founded for the rank function: every reference is a same-time reference
+to a model element of smaller rank — or the text is the stock skeleton, its initial value is such an
+expression, and its equation refers to model elements at `t - model.dt` only -/
+def elemOKb (els : List (String × Py)) (rk : String → Nat) (n : String) (body : Py) : Bool :=
+  refsIn (lowerNow els rk n) (fun _ => false) body ||
+  (match stockParts n body with
+   | some (init, eq) =>
+     inModel els n && refsIn (lowerNow els rk n) (fun _ => false) init && refsIn (fun _ => false) (inModel els) eq
+   | none => false)
+
+def modelOKb (els : List (String × Py)) (rk : String → Nat) : Bool :=
+  els.all fun p => elemOKb els rk p.1 p.2
+
+mutual
+/-- names referred to at the same time -/
+def nowRefs : Py → List String
+  | .paren e => nowRefs e
+  | .neg e => nowRefs e
+  | .not e => nowRefs e
+  | .kw _ e => nowRefs e
+  | .bin _ l r => nowRefs l ++ nowRefs r
+  | .index l r => nowRefs l ++ nowRefs r
+  | .ite x c y => nowRefs x ++ nowRefs c ++ nowRefs y
+  | .attr e _ => nowRefs e
+  | .call f args =>
+    if isMemoize f then
+      match args with
+      | [.str m, τ] => if isT τ then [m] else []
+      | _ => []
+    else nowRefs f ++ nowRefsL args
+  | .list es => nowRefsL es
+  | _ => []
+def nowRefsL : List Py → List String
+  | [] => []
+  | e :: es => nowRefs e ++ nowRefsL es
+end
+
+/-- a rank function for the same-time reference graph: longest-path length, by |els| rounds of relaxation
+(for a stock only the initial value is read at the same time) -/
+def computeRank (els : List (String × Py)) : List (String × Nat) :=
+  let refs := els.map fun (n, body) =>
+    (n, match stockParts n body with
+        | some (init, _) => nowRefs init
+        | none => nowRefs body)
+  let step (rk : List (String × Nat)) : List (String × Nat) :=
+    refs.map fun (n, ms) => (n, ms.foldl (fun acc m => max acc ((rk.lookup m).getD 0 + 1)) 0)
+  (List.range els.length).foldl (fun rk _ => step rk) (els.map fun (n, _) => (n, 0))
+
+def rankFn (rk : List (String × Nat)) (n : String) : Nat := (rk.lookup n).getD 0
+
 end Bptk.C01
